@@ -9,10 +9,12 @@ open Demeter M
 
 variable (cx : ACtx) (env : Env)
 
-/-- choose the debt: smallest value (`>=`, so the last of equal ones) among the not yet visited keys -/
+/-- choose the debt: smallest value (`>=`, so the last of equal ones) among the not yet visited keys;
+    the start value is never compared against the first candidate -/
 def pickDebt (bv : AList String BorrowV) (done : List String) : Option String × Rat :=
   bv.foldl (fun (acc : Option String × Rat) p =>
-    if acc.2 ≥ p.2.value && !done.contains p.1 then (some p.1, p.2.value) else acc) (none, Gen.aaveLiqSentinel)
+    if (acc.1.isNone || acc.2 ≥ p.2.value) && !done.contains p.1 then (some p.1, p.2.value) else acc)
+    (none, Gen.aaveLiqSentinel)
 
 /-- choose the collateral: biggest value (`<=`, so the last of equal ones) among the collateral supplies -/
 def pickColl (sv : AList String SupplyV) : Option String × Rat :=
@@ -25,6 +27,15 @@ def catchAssertion (m : M Unit) : M Unit := fun s =>
   | (.error e, s') => if e.isAssertion then (.ok (), s') else (.error e, s')
   | r => r
 
+/-- `_supplies[c].base_amount = nb` and `del _supplies[c]` when it reached zero — **no cache is reset here** -/
+def liqSeize (ctok : String) (info : SupplyInfo) (nb : Rat) : M Unit :=
+  modify (fun s => { s with
+    supplies := if nb = 0 then AList.erase s.supplies ctok else AList.set s.supplies ctok { info with base := nb } })
+
+/-- the five `reset()` calls at the end of `_do_liquidate` -/
+def resetAll : M Unit :=
+  modify (fun s => { s with borAmtC := .fresh, borC := .fresh, supAmtC := .fresh, supC := .fresh, collC := .fresh })
+
 /-- `_do_liquidate(collateral_token, delt_token, delt_value_to_cover)` -/
 def doLiquidate (ctok? : Option String) (dtok? : Option String) (toCover : Rat) : M Unit := do
   let oldHf ← healthFactor cx env
@@ -35,8 +46,8 @@ def doLiquidate (ctok? : Option String) (dtok? : Option String) (toCover : Rat) 
   let borrowIndex := dst.varIdx
   let supplyIndex := cst.liqIdx
   let cr ← ofRes (env.riskOf ctok)
-  let s ← get
-  let varDebt ← if AList.contains s.borrows dtok then do
+  let hasDebt ← queryPos (fun _ bor => .ok (AList.contains bor dtok))
+  let varDebt ← if hasDebt then do
       let b ← getBorrow cx env dtok
       pure b.amount
     else pure 0
@@ -62,15 +73,13 @@ def doLiquidate (ctok? : Option String) (dtok? : Option String) (toCover : Rat) 
     else pure (maxColl, actual)
   let dBase ← ofRes (divE cx collLiq supplyIndex)
   let nb := subBase cx info.base dBase
-  putSupply ctok { info with base := nb }
-  if nb = 0 then delSupply ctok else pure ()
+  liqSeize ctok info nb
   let remaining ← if varDebt ≥ debtLiq then subBorrowAmount cx env dtok debtLiq else throw .liqDebtExceeds
-  resetBorAmt; resetBor; resetSupAmt; resetSup; resetColl
+  resetAll
   let hfAfter ← healthFactor cx env
-  let s ← get
-  let collBaseAfter := match AList.get? s.supplies ctok with
+  let collBaseAfter ← queryPos (fun sup _ => .ok (match AList.get? sup ctok with
     | some i => i.base
-    | none => 0
+    | none => 0))
   record (.liquidation ctok dtok toCover collLiq debtLiq oldHf hfAfter
             (cx.mul collBaseAfter supplyIndex) (cx.mul remaining borrowIndex))
 
@@ -96,8 +105,8 @@ def liquidateLoop : Nat → List String → XRat → M Unit
 def liquidate : M Unit := do
   guardOpen env
   let hf ← healthFactor cx env
-  let s ← get
-  liquidateLoop cx env (s.borrows.length + 1) [] hf
+  let n ← queryPos (fun _ bor => .ok bor.length)
+  liquidateLoop cx env (n + 1) [] hf
   setUpdated
 
 end Demeter.Aave
